@@ -20,9 +20,11 @@ Inductive case :=
 (* arbitrary input *)
 | CParse (inp : list rune) (impl : itree)
 (* a string printed by the harness from a clause list of the documented grammar *)
-| CGen (cs : list sclause) (inp : list rune) (impl : itree)
-(* one node of a marshalled query tree: its Go type and the top-level keys (with value kinds) of its JSON *)
-| CDisp (T : bytes) (keys : list (bytes * Z)).
+(* [conf]: the harness built the list with conforming constructors only (and then also executed the
+   parsed query against the directly constructed one) *)
+| CGen (cs : list sclause) (inp : list rune) (conf : bool) (impl : itree)
+(* every node of a marshalled query tree: its Go type and the top-level keys (with value kinds) of its JSON *)
+| CDisp (nodes : list (bytes * list (bytes * Z))).
 
 Definition optZ_eqb := option_eqb Z.eqb.
 Definition optB_eqb := option_eqb Bool.eqb.
@@ -71,9 +73,11 @@ Definition check (c : case) : bool :=
       | LexStuck => false
       end
   | CParse inp impl => agree (parse_qs inp) impl
-  | CGen cs inp impl =>
+  | CGen cs inp conf impl =>
       (* the harness printed the clause list as the model's printer does *)
       rl_eqb (print cs) inp &&
+      (* what the harness calls conforming satisfies the side condition of qs_parse_print *)
+      implb conf (clauses_ok cs) &&
       (* the model's parse agrees with the implementation *)
       agree (parse_qs inp) impl &&
       (* and, where the documented syntax gives the clause list a meaning, that is what was parsed *)
@@ -81,8 +85,10 @@ Definition check (c : case) : bool :=
       | Some q => if clauses_ok cs then agree (POk q) impl else true
       | None => true
       end
-  | CDisp T keys =>
-      oq_eqb (dispatch XQuery.tests keys) (Some (expected T)) && keys_consistent XQuery.emits T keys
+  | CDisp nodes =>
+      forallb (fun n => let '(T, keys) := n in
+                 oq_eqb (dispatch XQuery.tests keys) (Some (expected T)) && keys_consistent XQuery.emits T keys)
+              nodes
   end.
 
 (* what the model expected, for replay files *)
@@ -90,12 +96,12 @@ Inductive expl :=
 | ELex (r : lex_result)
 | EParse (r : presult)
 | EGen (printed : list rune) (r : presult) (d : option bq) (ok : bool)
-| EDisp (r : option qtype) (consistent : bool).
+| EDisp (r : list (option qtype * bool)).
 
 Definition explain (c : case) : expl :=
   match c with
   | CLex inp _ => ELex (lex inp)
   | CParse inp _ => EParse (parse_qs inp)
-  | CGen cs inp _ => EGen (print cs) (parse_qs inp) (denote cs) (clauses_ok cs)
-  | CDisp T keys => EDisp (dispatch XQuery.tests keys) (keys_consistent XQuery.emits T keys)
+  | CGen cs inp _ _ => EGen (print cs) (parse_qs inp) (denote cs) (clauses_ok cs)
+  | CDisp nodes => EDisp (map (fun n => (dispatch XQuery.tests (snd n), keys_consistent XQuery.emits (fst n) (snd n))) nodes)
   end.
